@@ -216,13 +216,18 @@ LEVEL_TEXT = ("BGP session (Bgp/BgpSessionModel.v): over ALL scripts of the even
               "BMP connection: theorems over ALL scripts of read events (every cut point, every io::ErrorKind class at every position, end of file or unit shutdown), every "
               "parser and every starting register: the read loop of the BMP connection always reaches the post-loop block, and the updates that left "
               "the gate are pre ++ [WithdrawBulk(all children of the router's ingress id); EndOfStream(router)] with no other EndOfStream, every ingress "
-              "id mentioned earlier and every peer still up being in that WithdrawBulk. Kernel-checked, axiom-free. For the code before the repair: "
+              "id mentioned earlier and every peer still up being in that WithdrawBulk. Under back-pressure (C07_cleanup_under_backpressure): for EVERY schedule of waits at the receiving end - any update, any length of time - "
+              "what the receiving end has got when the task returns is that same trace (delayed, never dropped, never repeated) and the task has not returned before the longest "
+              "wait was over; C07_time_limit_would_lose_cleanup shows the statement is not blind to a time limit. Kernel-checked, axiom-free. For the code before the repair: "
               "refuted by a short-length header after a Peer Up (task dies, no cleanup), complete cleanup whenever the task survives. Tied to the real "
-              "read_from_router by cutting valid streams at every byte offset x error kinds through a scripted reader.")
+              "read_from_router by cutting valid streams at every byte offset x error kinds through a scripted reader, the same with the receiving end holding the "
+              "cleanup's updates for an hour of a paused clock (op H), and with the ingress register write-locked by another party while the session ends (op L).")
 DESIGN_REF = "DESIGN.md section 6, C07"
 LEVEL_NOTE = ("Trusted: Coq kernel, extraction + OCaml driver, Rust harness (scripted AsyncRead, capture Link) and generators. PARTIAL: the removal of the "
               "session from router_states/router_info happens in the task spawned by unit.rs accept_config after run() returns; it is not in the model and is "
               "checked on the implementation only (real loopback TCP connections through the real accept_config: close, reset, shutdown, short header, cuts); "
+              "back-pressure is modelled as the receiving unit not returning from direct_update for a while (whole updates; tokio's paused clock and the harness's own "
+              "executor for the connection's future are trusted); the ingress register is one atomic step per method (C14), its lock is exercised (op L, c14-contend), not modelled; "
               "the BGP session end (bgp_tcp_in router_handler.rs Processor::process) is modelled at the level of the events its select! loop sees - routecore's "
               "Session only as far as tick()/negotiated()/the message channel go (contract bs_wf), the gate as the statuses process() returns - and tied to the real "
               "loop by engine bgpend over a scripted session; the FSM, the TCP halves, the writer task of handle_connection (which turns a Disconnect into "
